@@ -53,6 +53,22 @@ extern "C" void h_bishoppawn_sym(void) {
 }
 
 // left-right mirror symmetry (no castling rights are involved in this rule)
+// ---- O4c: the hand-mirrored blocked-pawn draw rule of king+pawn v king+pawn (four copies: b/g file x white/black): left-right mirror and colour-swap symmetry
+extern "C" void h_kpkp_sym(void) {
+    int wk = nondet_int(), bk = nondet_int(), wp = nondet_int(), bp = nondet_int(), s0 = nondet_int();
+    ASSUME(wk >= 0 && wk < 64 && bk >= 0 && bk < 64 && wp >= 8 && wp < 56 && bp >= 8 && bp < 56);
+    ASSUME(s0 >= -32000 && s0 <= 32000);
+    int sc = s0, scM = s0, scC = s0;
+    bool r = EndGameEval::kpkpEval(Square(wk), Square(bk), Square(wp), Square(bp), sc);                              // real
+    bool rM = EndGameEval::kpkpEval(Square(wk ^ 7), Square(bk ^ 7), Square(wp ^ 7), Square(bp ^ 7), scM);            // left-right mirrored
+    bool rC = EndGameEval::kpkpEval(Square(bk ^ 56), Square(wk ^ 56), Square(bp ^ 56), Square(wp ^ 56), scC);        // colours swapped, board flipped
+    verif_observe(r); verif_observe(sc);
+    CHECK(r == rM && sc == scM, "kpkpEval(P) == kpkpEval(left-right mirrored P)");
+    CHECK(r == rC && sc == scC, "kpkpEval(P) == kpkpEval(colour-swapped P): same verdict, score forced to 0 or left alone");
+    if (r) CHECK(sc == 0, "a recognised fortress is scored 0"); else CHECK(sc == s0, "otherwise the score is left alone");
+    END();
+}
+
 extern "C" void h_bishoppawn_mirror(void) {
     ::pieceValue[Piece::WPAWN] = ::pieceValue[Piece::BPAWN] = pV; ::pieceValue[Piece::WKNIGHT] = ::pieceValue[Piece::BKNIGHT] = nV;
     ::pieceValue[Piece::WBISHOP] = ::pieceValue[Piece::BBISHOP] = bV; ::pieceValue[Piece::WROOK] = ::pieceValue[Piece::BROOK] = rV;
